@@ -517,10 +517,27 @@ class DocumentationAggregator(CMakeListener):
         :param docstring: Cleaned docstring.
         """
 
-        args = ctx.single_argument() + ctx.compound_argument()
-        args = [val.getText() for val in args]
+        args = self.arguments_in_source_order(ctx)
         self.documented.append(GenericCommandDocumentation(
             command_name, docstring, args))
+
+    @staticmethod
+    def arguments_in_source_order(ctx: ParserRuleContext) -> List[str]:
+        """
+        Collects the text of all arguments of a command or parenthesized group
+        in the order they were written. A parenthesized group is rendered as
+        a single element with its own arguments separated by single spaces.
+
+        :param ctx: Command invocation or compound argument context.
+        """
+        args = []
+        for child in ctx.getChildren():
+            if isinstance(child, CMakeParser.Single_argumentContext):
+                args.append(child.getText())
+            elif isinstance(child, CMakeParser.Compound_argumentContext):
+                inner = DocumentationAggregator.arguments_in_source_order(child)
+                args.append(f"({' '.join(inner)})")
+        return args
 
     @staticmethod
     def clean_doc_lines(lines: List[str]) -> str:
